@@ -11,11 +11,14 @@ namespace MpfVerif.C12
 open MpfVerif.Config MpfVerif.Gen
 
 def modelledValidators : List String :=
-  ["int", "float", "num", "bool", "str", "lstr", "ms", "secs", "enum", "pow2", "bool_int"]
-def opaqueValidators : List String :=
-  ["machine", "subconfig", "dict", "list", "ignore", "color", "color_or_token", "kivycolor", "gain", "event_handler",
-   "event_posted", "int_or_token", "ms_or_token", "float_or_token", "template_bool", "template_float",
-   "template_float_or_token", "template_int", "template_ms", "template_secs", "template_str"]
+  ["int", "float", "num", "bool", "str", "lstr", "ms", "secs", "enum", "pow2", "bool_int",
+   -- session 3 (Model/ConfigExt.lean)
+   "machine", "subconfig", "dict", "list", "color", "color_or_token", "gain", "event_handler", "event_posted",
+   "int_or_token", "ms_or_token", "secs_or_token", "float_or_token", "num_or_token", "bool_or_token", "template_bool",
+   "template_float", "template_float_or_token", "template_int", "template_ms", "template_secs", "template_str",
+   "boolean", "int_from_hex"]
+/-- `ignore` is not a validator (the key is skipped); `kivycolor` (mpf-mc widgets) is answered `unmodelled` -/
+def opaqueValidators : List String := ["ignore", "kivycolor"]
 
 /-- branch j is shadowed by an earlier branch i if one of j's suffixes ends with one of i's -/
 def noShadowAux : List TimeSuffix.Entry → List TimeSuffix.Entry → Bool
